@@ -281,8 +281,8 @@ def run(ctx):
         p = rng.choice(PATCHES[prod]) if rng.random() < 0.6 else ''
         return (v, p)
 
-    n_pairs = 12000 if q else 900000
-    n_corr = 2500 if q else 30000
+    n_pairs = 12000 if q else 2000000
+    n_corr = 2500 if q else 60000
     for i in range(n_pairs):
         prod = PRODUCTS[i % 3] if i % 7 else rng.choice(PRODUCTS)
         a = gen_item(prod)
@@ -342,7 +342,7 @@ def run(ctx):
     # ============ 3. transitivity on triples ============
     def le(x):
         return x <= 0
-    n_tri = 3000 if q else 150000
+    n_tri = 3000 if q else 300000
     for i in range(n_tri):
         prod = PRODUCTS[i % 3] if i % 5 else OPENSSH
         a = gen_item(prod)
